@@ -7,8 +7,8 @@ from common import *
 from p_histfile import enc, dec
 
 ENTRIES = ["a", "ab", " a", "b", "é", "a b", "git status", "ls -l src", "echo git", "Git log", "make git-hooks", "x", "",
-           "日本", "a", "b", "two words", "\tx", "\u3000wide blank", "\u00a0nbsp", "\u2003em", "\x0bvt", "\u3000", "écho héllo", "日本語 go", "ééé"]
-TERMS = ["a", "git", "g", "ls", "src", "G", "é", "b", "status", "xyz", "éch", "日本", "éé", "É"]
+           "日本", "a", "b", "two words", "\tx", "\u3000wide blank", "\u00a0nbsp", "\u2003em", "\x0bvt", "\u3000", "écho héllo", "日本語 go", "ééé", "İİİ sort x", "echo 273\u212a ok", "İ ls"]
+TERMS = ["a", "git", "g", "ls", "src", "G", "é", "b", "status", "xyz", "éch", "日本", "éé", "É", "sort", "ok"]
 ODD_TERMS = ["\"", "(", "-l", "a b", "ls!!", "*", "AND", "a\"b", "'", "a-b", ".", "^a", "日"]
 
 
@@ -206,6 +206,12 @@ def c20_corr(res, exe, driver, tier, seed, tmp):
                     eb = entry.encode("utf-8")
                     # an offset inside the entry: a position of its text (callers slice the entry there), not the middle of a character
                     inside = 0 <= pos <= len(eb) and (pos == len(eb) or (eb[pos] & 0xc0) != 0x80)
+                    if ok and inside and t[0] == "search":
+                        # the offset is WHERE the text is: the entry, from there on, starts with it (ignoring case)
+                        at = eb[pos:].decode("utf-8", "replace").lower()
+                        if not at.startswith(term.lower()):
+                            ok = False
+                            stats["offset_not_at_the_match"] = stats.get("offset_not_at_the_match", 0) + 1
                     if not ok and t[0] == "sw" and inside:
                         # class (b) of known finding K4: the first TOKEN of the entry starts with the text, the entry itself
                         # begins with characters the tokenizer skips (blanks, punctuation)
